@@ -196,7 +196,7 @@ func (e *Enc) oblige(st *State, kind, label string, cond string, pos token.Pos) 
 	}
 	if e.contract != nil && e.contract.Partial && !e.sweepOnly {
 		switch kind {
-		case "nopanic", "pre", "typestate":
+		case "nopanic", "nohang", "pre", "typestate":
 			// partial contract: run-time safety of this function is not
 			// claimed here; the condition is assumed (listed in evidence)
 			st.assume(cond)
@@ -1295,6 +1295,15 @@ func (e *Enc) intOp(st *State, op token.Token, t types.Type, a, b Value, pos tok
 		e.oblige(st, "nopanic", "div-by-zero", "(not (= "+b.term+" 0))", pos)
 		return fmt.Sprintf("(ite (>= %[1]s 0) (mod %[1]s %[2]s) (- (mod (- %[1]s) %[2]s)))", a.term, b.term)
 	case token.SHL, token.SHR, token.AND, token.OR, token.XOR, token.AND_NOT:
+		if c, ok := yv.(*ssa.Const); ok && c.Value != nil && c.Value.Kind() == constant.Int && op == token.AND {
+			if n, exact := constant.Int64Val(c.Value); exact && n > 0 {
+				// mask of form 2^k-1: the low k bits, i.e. the value modulo 2^k
+				// (also for negative operands in two's complement)
+				if k, isMask := maskBits(n); isMask {
+					return "(mod " + a.term + " " + pow2(k) + ")"
+				}
+			}
+		}
 		if c, ok := yv.(*ssa.Const); ok && c.Value != nil && c.Value.Kind() == constant.Int {
 			if n, exact := constant.Int64Val(c.Value); exact && n >= 0 && n < 64 {
 				lo, _, _ := intRange(t)
@@ -1305,21 +1314,45 @@ func (e *Enc) intOp(st *State, op token.Token, t types.Type, a, b Value, pos tok
 				case token.SHR:
 					return "(div " + a.term + " " + pow2(n) + ")"
 				case token.AND:
-					// mask of form 2^k-1 on a non-negative operand
-					if k, isMask := maskBits(n); isMask && unsigned {
+					// mask of form 2^k-1: the low k bits, i.e. the value modulo 2^k
+					// (also for negative operands in two's complement)
+					if k, isMask := maskBits(n); isMask {
+						_ = unsigned
 						return "(mod " + a.term + " " + pow2(k) + ")"
 					}
 				}
 			}
 		}
-		if bc, ok := yv.(*ssa.Const); ok && op == token.SHL || op == token.SHR {
-			_ = bc
+		// shift by a variable amount: x << s = x * 2^s (wrapped), x >> s = x div 2^s,
+		// with 2^s given by a case distinction over 0..63 (0 beyond the width for <<)
+		if (op == token.SHL || op == token.SHR) && e.u.sortOf(b.typ) == sortInt {
+			lo, hi, okr := intRange(t)
+			if okr && lo != nil {
+				e.v.needPow2()
+				width := int64(hi.BitLen())
+				if lo.Sign() < 0 {
+					width++
+				}
+				if op == token.SHL {
+					return wrapInt(t, fmt.Sprintf("(ite (< %s %d) (* %s (pow2 %s)) 0)", b.term, width, a.term, b.term))
+				}
+				return fmt.Sprintf("(ite (< %s %d) (div %s (pow2 %s)) (ite (>= %s 0) 0 (- 1)))", b.term, width, a.term, b.term, a.term)
+			}
 		}
 		fn := "bitop_" + sanitize(op.String())
 		e.v.declFun(fn, "(Int Int) Int")
 		r := "(" + fn + " " + a.term + " " + b.term + ")"
 		res := e.q.define("bitop", sortInt, r)
 		st.assume(inRange(t, res))
+		if op == token.OR {
+			// x | y = x + y when x is a non-negative multiple of 2^k and 0 <= y < 2^k
+			// (applied for the k of an operand that is a shift by a constant)
+			for _, pair := range [][2]Value{{a, b}, {b, a}} {
+				if k, ok := shiftConstOf(fr0(e), pair[0]); ok {
+					st.assume(fmt.Sprintf("(=> (and (>= %[1]s 0) (= (mod %[1]s %[3]s) 0) (<= 0 %[2]s) (< %[2]s %[3]s)) (= %[4]s (+ %[1]s %[2]s)))", pair[0].term, pair[1].term, pow2(k), res))
+				}
+			}
+		}
 		lo, _, _ := intRange(t)
 		if lo != nil && lo.Sign() == 0 {
 			switch op {
@@ -1544,4 +1577,12 @@ func (e *Enc) returnSiteChecks(fr *frame, st *State, vals []Value, pos token.Pos
 		e.v.callsiteHits[con.Key+"/"+c.Label]++
 		e.obligeClauseNamed(env, st, "returnsite", c.Label, c, pos)
 	}
+}
+
+func fr0(e *Enc) *Enc { return e }
+
+// shift constants recorded (per query) for values produced by "x << k" with constant k
+func shiftConstOf(e *Enc, v Value) (int64, bool) {
+	k, ok := e.q.shlConst[v.term]
+	return k, ok
 }
